@@ -119,6 +119,7 @@ def allowed_builtins(a) -> dict[str, object]:
         raise Unsupported('getattr on a non-builtins object')
 
     ev = _Eval(env, calls={'vars': _vars, 'getattr': _getattr, 'hasattr': lambda x, n: hasattr(_bi, n) if isinstance(x, _Builtins) else False})
+    _add_module_functions(a, ev, SAFEEVAL, skip=('safe_builtins',))  # a predicate moved out of safe_builtins() is interpreted with it
     res = ev.call_function(fn.node, [])
     if not isinstance(res, dict):
         raise AnalysisError(f'{fn.loc}: safe_builtins() did not evaluate to a mapping')
